@@ -87,6 +87,7 @@ var specs = map[string]*propSpec{
 	"C06": chainSpec("C06", "exploration"),
 	"C04": chainSpec("C04", "exploration"),
 	"C07": c07Spec(),
+	"C11": c11Spec(),
 	"C05": chainSpec("C05", "exploration"),
 }
 
@@ -120,5 +121,15 @@ func c07Spec() *propSpec {
 	s.Rule = "one case = a chain history as in C06 (extend the tip, save through Idle/Save with paced and unpaced snapshot writers, blocks arriving while a save is running, reorganisations after a completed save, invalid side blocks, data-file roll-over, clean restarts) executed once under the deterministic scheduler with the complete file-system effect log recorded; then the data directory as the kernel had it just before effect k is materialised (every k in thorough; a seeded subset weighted towards renames/removes/creates, index records, flag bytes and effects of background goroutines in quick), opened by a fresh node through the library recovery path or the client's start-up loop, judged (opens; tip is a ledger-valid block delivered before the crash; unspent set = replay of that tip), re-fed the whole history (same final work and exact unspent set as the uninterrupted run) . evaluations = histories + crash images recovered; distinct_nontrivial = distinct (schedule-trace hash, final state) among runs with >= 1 crash image."
 	s.Assumptions = append(s.Assumptions, "process-death crash model: what was handed to the kernel survives, user-space buffers do not; no power-loss reordering", "after a crash an equally valid tip of equal work is accepted as 'same final state' (first-seen order is not durable)")
 	s.ExpectProbes = []string{"crash_in_snapshot_save", "crash_between_utxo_renames", "crash_in_undo_write", "crash_before_index_record", "crash_before_block_data", "crash_in_background_goroutine", "reorg_after_snapshot"}
+	return s
+}
+
+func c11Spec() *propSpec {
+	s := chainSpec("C11", "exploration")
+	s.Chunk = 4
+	s.Quick = tierParams{Runs: 260, BudgetS: 60, PerRunS: 300, RaceRuns: 40, RaceBudgetS: 60, ShrinkAttempts: 80, ShrinkS: 120}
+	s.Thorough = tierParams{Runs: 12000, BudgetS: 1200, PerRunS: 900, RaceRuns: 1500, RaceBudgetS: 900, ShrinkAttempts: 300, ShrinkS: 400}
+	s.Rule = "one case = a history of 6-14 fan-out blocks (8-45 transactions: several hashing packs, more than 32 spent and created records, in-block spend chains) with a snapshot started (Idle / operator save, paced 0-5 s) before most blocks so that the next block aborts it in an arbitrary phase, HurryUp, forced map defragmentation, Close during a save, clean restarts; yield probability 0.05-0.5 at every scheduling point, seeded lock hand-over, timers racing with runnable goroutines. Oracles: verdicts, tip and decoded unspent set equal the reference ledger (schedule independence); every snapshot is parsed at the instant it is renamed to UTXO.db and must equal the ledger's unspent set of exactly the block in its header; no *.db.tmp survives Close; no deadlock; the race-detector arm repeats seeds with the simulator's hand-over edges hidden. distinct_nontrivial = distinct (schedule-trace hash, final state)."
+	s.ExpectProbes = []string{"snapshot_became_visible", "defrag_map", "reorg", "idle_started_save", "explicit_save"}
 	return s
 }
